@@ -191,7 +191,9 @@ def sections_template(fx, body):
     """the listing's template as one string with {field} placeholders (a one-element list), None if not executable"""
     from .. import render as R
     try:
-        paths = R.render_paths(fx, body, [("var", "self"), ("var", "f")], ("var", "f"))
+        # a field handed to its own Display impl — `write!(f, "{}", self.x)` or `self.x.fmt(f)` — is one placeholder
+        # here; how that impl renders the field is the numbered-lines obligation of its own type
+        paths = R.render_paths(fx, body, [("var", "self"), ("var", "f")], ("var", "f"), no_inline=("Display>::fmt",))
     except Exception:
         return None
     if len(paths) != 1:
